@@ -1,15 +1,17 @@
 (* Run/EngineRun.v — correspondence glue for the engine properties: the model's API result against
    what New+Exec returned on the real code. *)
-From GenqlV Require Import Base.Prelude Base.Value Model.Ast Model.Eval Model.Exec.
+From GenqlV Require Import Base.Prelude Base.Value Model.Ast Model.Eval Model.Exec Model.Join.
 
 Definition input := (bool * value * stmt)%type.   (* Wrapped?, document, query *)
 Definition obs := res (list value).               (* Ok rows | Err (error returned) | Panic (escaped) *)
 
 Definition fuel : nat := 40.
 
+(* joins are evaluated by the code-shaped join model (Model/Join.v) in every engine check, so that a query whose
+   FROM contains a join is never silently out of model *)
 Definition run_model (i : input) : res (list value) :=
   let '(wrapped, doc, q) := i in
-  api_run no_call no_join fuel wrapped doc q.
+  api_run no_call exec_join fuel wrapped doc q.
 
 (* exact sequence of rows *)
 Definition check_seq (i : input) (o : obs) : N :=
@@ -74,7 +76,7 @@ Definition check_order (i : input) (o : obs) : N :=
 (* ---------- C04: joins.  Model (code-shaped) and specification (textbook) are evaluated
    separately, so a strategy-dependent answer shows up as "property fails" even when the model
    mirrors the code ---------- *)
-From GenqlV Require Import Model.Join Spec.JoinSpec.
+From GenqlV Require Import Spec.JoinSpec.
 
 Definition run_model_join (i : input) : res (list value) :=
   let '(wrapped, doc, q) := i in
